@@ -165,6 +165,32 @@ impl Prop for P {
             cases.push(build_case("extend", "all", 0, drows(), dcols(), &map_ops(&with_values(&ks, &vals))));
             cases.push(build_case("extend", "all", 0, drows(), dcols(), &set_ops(&ks)));
         }
+        // node caches of a few buckets, where nodes compete for cells all the time: which node is evicted - hence
+        // the bytes - depends on the bucket function, which must be the same in every process (these lines are
+        // executed by the C01 executor, which honours the geometry of the case line)
+        let mut tiny = vec![];
+        for _ in 0..60 {
+            let ks = random_keyset(rng, 40, 6);
+            let vals = value_pattern(6, ks.len(), rng);
+            let g = *rng.pick(&[(2usize, 1usize), (2, 2), (3, 3), (7, 4), (5, 1)]);
+            tiny.push(build_case("extend", "raw_loop", 0, g.0, g.1, &map_ops(&with_values(&ks, &vals))));
+            tiny.push(build_case("calls", "raw", 0, g.0, g.1, &set_ops(&ks)));
+        }
+        let tf = dir.join("tiny.txt");
+        std::fs::write(&tf, tiny.join("\n") + "\n").unwrap();
+        let tiny_inproc: Vec<String> = tiny.iter().map(|c| exec_build_case(&c["build ".len()..])).collect();
+        for i in 0..3 {
+            let of = dir.join(format!("tiny{}.txt", i));
+            let st = std::process::Command::new(&exe).args(["C01", "exec", tf.to_str().unwrap(), of.to_str().unwrap()]).status();
+            if st.map(|s| !s.success()).unwrap_or(true) {
+                return vec![("cross_process_determinism".into(), false, "child process failed".into())];
+            }
+            let got = std::fs::read_to_string(&of).unwrap_or_default();
+            if got.lines().map(|l| l.to_string()).collect::<Vec<_>>() != tiny_inproc {
+                let _ = std::fs::remove_dir_all(&dir);
+                return vec![("cross_process_determinism".into(), false, format!("a build under a tiny node cache gives other bytes in child process {} than in this process ({} builds compared)", i, tiny.len()))];
+            }
+        }
         let cf = dir.join("cases.txt");
         std::fs::write(&cf, cases.join("\n") + "\n").unwrap();
         let mut outs = vec![];
